@@ -125,3 +125,18 @@ Fixpoint get_at (v : pyval) (cp : list pyval) : option pyval :=
       | _ => None
       end
   end.
+
+(* The value a failure item shows once validation is over.  A rule with casts is judged on the shared copy; a container
+   value in a failure is a live reference into that copy and shows its final state -- except the document itself when it
+   is a mapping: Data re-wraps the entries of a dict, so the failure holds a NEW dict of the entries as they were when the
+   rule was judged (an entry that is itself a container is still a live reference). *)
+Definition refreshed_value (final v : pyval) (cp : list pyval) : pyval :=
+  match v, cp with
+  | VDict d, [] =>
+      VDict (map (fun kv => match snd kv with
+                            | VList _ | VDict _ => match get_at final [fst kv] with Some v' => (fst kv, v') | None => kv end
+                            | _ => kv
+                            end) d)
+  | VDict _, _ :: _ | VList _, _ => match get_at final cp with Some v' => v' | None => v end
+  | _, _ => v
+  end.
